@@ -1,4 +1,5 @@
-(* C05, part 5: packaging lemmas for props/C05.v and the concrete self-join witness *)
+(* C05, part 5: packaging lemmas for props/C05.v and the concrete self-join witness (finding F12: a regression statement about the
+   model before the repair, and the same run in the repaired model) *)
 From Coq Require Import ZArith QArith List Bool Lia Sorting.Permutation Sorting.Sorted.
 Import ListNotations.
 Require Import Py PyProofs Pairing Core Multi Coordinator Peaks BestProofs1 BestProofs2 BestProofs3 BestProofs4.
@@ -28,8 +29,8 @@ Definition sq9 := mkMap 9 130010 [0; 10000; 25000; 45000; 50000; 70000; 100000; 
 Definition sseeds (refs : list omap) (q : omap) : list cseed :=
   match refs with a :: _ => if (length (mpositions q) =? 8)%nat then [mkSeed a false [16000]] else [mkSeed a false [10000; 16000]] | _ => [] end.
 
-Lemma best_record_is_best_refuted : exists P (seeds : seeding) refs qs maxdiff o rows1 it1 frags rows2 it2 w x,
-  program_run P seeds Best maxdiff refs qs = Ok o /\ execute P seeds refs qs 1 = Ok (rows1, it1) /\
+Lemma best_record_is_best_refuted_before_F12 : exists P (seeds : seeding) refs qs maxdiff o rows1 it1 frags rows2 it2 w x,
+  program_run_before_F12 P seeds Best maxdiff refs qs = Ok o /\ execute P seeds refs qs 1 = Ok (rows1, it1) /\
   all_fragments rows1 qs = Ok frags /\ execute P seeds refs frags it1 = Ok (rows2, it2) /\
   o_main o = [w] /\ In x (map set_rest rows2) /\ qid x = qid w /\ conf w < conf x /\
   join_rows x x = Ok w.
@@ -38,7 +39,7 @@ Proof.
   destruct (all_fragments rows1 [sq9]) as [frags|] eqn:Ef; [|vm_compute in E1; injection E1 as <- <-; vm_compute in Ef; discriminate].
   destruct (execute sP sseeds [sr1] frags it1) as [[rows2 it2]|] eqn:E2;
     [|vm_compute in E1; injection E1 as <- <-; vm_compute in Ef; injection Ef as <-; vm_compute in E2; discriminate].
-  destruct (program_run sP sseeds Best 1000000 [sr1] [sq9]) as [o|] eqn:Eo; [|vm_compute in Eo; discriminate].
+  destruct (program_run_before_F12 sP sseeds Best 1000000 [sr1] [sq9]) as [o|] eqn:Eo; [|vm_compute in Eo; discriminate].
   destruct (o_main o) as [|w [|w' t]] eqn:Em; [vm_compute in Eo; injection Eo as <-; discriminate| |vm_compute in Eo; injection Eo as <-; discriminate].
   destruct (map set_rest rows2) as [|x [|x' t]] eqn:Ex;
     [vm_compute in E1; injection E1 as <- <-; vm_compute in Ef; injection Ef as <-; vm_compute in E2; injection E2 as <- <-; discriminate | |
@@ -50,3 +51,13 @@ Proof.
   vm_compute. repeat split; reflexivity.
 Qed.
 
+
+(* the same run after repair F12: the record of the query is its second-pass row x itself (the best row over both passes) *)
+Lemma best_record_is_best_witness : exists rows1 it1 frags rows2 it2 o x,
+  execute sP sseeds [sr1] [sq9] 1 = Ok (rows1, it1) /\ all_fragments rows1 [sq9] = Ok frags /\
+  execute sP sseeds [sr1] frags it1 = Ok (rows2, it2) /\
+  program_run sP sseeds Best 1000000 [sr1] [sq9] = Ok o /\
+  map set_rest rows2 = [x] /\ o_main o = [x] /\ (forall y, In y rows1 -> conf y < conf x).
+Proof. do 7 eexists. split; [vm_compute; reflexivity|]. split; [vm_compute; reflexivity|]. split; [vm_compute; reflexivity|].
+  split; [vm_compute; reflexivity|]. split; [vm_compute; reflexivity|]. split; [vm_compute; reflexivity|].
+  intros y [<-|[]]. vm_compute. reflexivity. Qed.
